@@ -25,7 +25,7 @@ TRUSTED = [
     "public methods",
     "harness/ref/render.py: the uncached reference renderer (oracle); it walks public attributes, never calls "
     "to_HAP, and asks side-effect-free scripted getters for the value a read must return",
-    "single-threaded histories (the threaded window is C20); linked services are not part of C11 histories; "
+    "single-threaded histories (the threaded window is C20); services are linked only to services of the same accessory; "
     "structural histories (add service / add, remove bridged accessory / IIDManager assign, remove_obj, remove_iid "
     "interleaved with mutations and reads) hand the model the loader-built definitions of every new service "
     "(type, properties, loader name, initial value) as data",
@@ -138,6 +138,7 @@ class Hist:
                             "obj": rig.num(s),
                             "type": hap_type(s.type_id),
                             "primary": s.is_primary_service,
+                            "linked": [rig.num(ls) for ls in s.linked_services],
                             "chars": [
                                 {
                                     "obj": rig.num(c),
@@ -343,6 +344,10 @@ class Hist:
                 out = {"ok": rig.num(m.remove_iid(op["iid"]))}
                 self.lines.append({"op": "removeIid", "aid": op["aid"], "iid": op["iid"]})
             self.dirty = self.structural = True
+        elif k == "link":
+            rig.objs[op["svc"]].add_linked_service(rig.objs[op["other"]])
+            self.lines.append({"op": "addLinked", "aid": op["aid"], "svc": op["svc"], "other": op["other"]})
+            self.dirty = True
         elif k == "read_all":
             out = self.read_all(op)
         elif k == "read_chars":
@@ -754,6 +759,12 @@ def gen_history(ctx: Ctx, pool, program=None, n_ops: Optional[int] = None) -> Hi
         elif x < 0.49:
             key, acc, s, c = rng.choice(live)
             h.apply({"op": "primary", "aid": key, "svc": rig.num(s)})
+        elif x < 0.53:
+            # link two services of one accessory (sometimes the same pair again, sometimes a service to itself)
+            key, acc, s, c = rng.choice(live)
+            if rig.accessory(key) is acc:
+                other = rng.choice(acc.services) if rng.random() < 0.8 or not s.linked_services else rng.choice(s.linked_services)
+                h.apply({"op": "link", "aid": key, "svc": rig.num(s), "other": rig.num(other)})
         else:
             h.apply(mutate(rng.choice(focus if rng.random() < 0.85 else live)))
     return h
@@ -833,7 +844,7 @@ def run(ctx: Ctx):
         "a case is one configuration (standalone accessory or bridge with 1-4 bridged accessories, all built from "
         "shipped services) plus a history of set_value / controller write (PUT /characteristics, with or without a "
         "raising setter callback) / override_properties / display-name change / getter install, change, removal / "
-        "availability and primary-service changes / plain value assignment, and in 40% of the random histories also structural "
+        "availability and primary-service changes / linking services / plain value assignment, and in 40% of the random histories also structural "
         "changes (add service, add / remove bridged accessory, IIDManager assign / remove_obj / remove_iid), interleaved with GET /accessories (with and without values, via the "
         "driver and via HAPServerHandler.dispatch) and GET /characteristics. Non-trivial: at least one read happens "
         "after a mutation; distinct by configuration + op list."
